@@ -197,7 +197,16 @@ def a_worker(arg):
             if i == 0:
                 prefix = data.draw(st.sampled_from([b"", b"\n", b"# \xc3\xa9\r\n", b"/* c */ ", b"\r\n\r\n  "]))
             else:
-                prefix = data.draw(S.layout(toks[:i])) + data.draw(st.sampled_from(PRE_SEPS))
+                glued = cls == "junk" and data.draw(st.integers(0, 2)) == 0
+                prefix = data.draw(S.layout(toks[:i]))
+                if prefix.endswith((b" # end", b" /* end */")):
+                    prefix += b"\n"
+                elif not glued:
+                    prefix += data.draw(st.sampled_from(PRE_SEPS))
+                else:
+                    # no separator: the bytes that are no token follow the previous token directly (the
+                    # reference lexer below confirms that they still start at this offset)
+                    col.classes["A:junk-glued"] += 1
                 if prefix.endswith((b" # end", b" /* end */")):
                     prefix += b"\n"
             restsep = data.draw(st.sampled_from([b" ", b"\n", b"\r\n", b"\t"]))
